@@ -2,6 +2,7 @@
 mod decode;
 mod encode;
 mod rng;
+mod txt;
 mod wire;
 
 use serde_json::json;
@@ -52,6 +53,21 @@ fn main() {
             }
             let summary = encode::drive(cases, &out);
             println!("{}", json!({"summary": summary}));
+        }
+        "txt" => {
+            let limit = a.get("limit").and_then(|s| s.parse().ok()).unwrap_or(5);
+            let k = if thorough { 20 } else { 1 };
+            let only = a.contains_key("only-cases");
+            let summary = txt::drive(a.get("cases").map(|s| s.as_str()), limit, seed,
+                                     if only { 0 } else { 1500 * k }, if only { 0 } else { 2000 * k },
+                                     if only { 0 } else if thorough { 5 } else { 4 }, &out);
+            println!("{}", json!({"summary": summary}));
+        }
+        "txt-bytes" => {
+            let h = a.get("hex").cloned().unwrap_or_default();
+            let bytes: Vec<u8> = (0..h.len() / 2).map(|i| u8::from_str_radix(&h[2 * i..2 * i + 2], 16).unwrap_or(0)).collect();
+            std::fs::write(&out, format!("{}\n", txt::run_bytes(0, "replay", &bytes))).unwrap();
+            println!("{}", json!({"summary": {}}));
         }
         "decode-one" => {
             let h = a.get("hex").cloned().unwrap_or_default();
